@@ -1,5 +1,5 @@
 """C07: decided on the L1 machine (theorem Ivy.Props.C07.monitor_accepts) + T-replay correspondence."""
-from . import l1
+from . import l1, loopgen
 PROP = "C07"
 LEANCHECK_MODULES = ["Ivy.L1.Machine", "Ivy.L1.Exec", "Ivy.Mon.C07", "Ivy.L1.ProofsC07", "Ivy.Props.C07"]
 FAMILIES = ['lifecycle', 'mix', 'deadline']
@@ -9,13 +9,18 @@ RULE = ("scenario families ['lifecycle', 'mix'] (see vlib/loopgen.py) rotating o
         "replayed through the Lean machine (every library record must be predicted) and through the Lean monitor(s) ['C07', 'C07spin']; sanitizer "
         "classes counted as violations of this property: []. non-trivial = iv_main returned at least once after objects had been registered and unregistered, or a registration failed; distinct by hash of the log")
 
+KT_RULE = ("; plus the ENUMERATED family 'ktimer' (140 scenarios every run): a far timer pending while a descriptor wakes the loop k = 2..8 times in a "
+           "row (below/at/above the threshold at which epoll-timerfd arms its timer descriptor), then a handler adds an earlier or later timer, "
+           "unregisters or re-registers the pending one, then more wake-ups; all four methods")
+
 
 def nontrivial(log):
     return ("MAINRET" in log and "Unregister" in log) or "RET -1" in log
 
 
 def run(tier, seed, proof):
-    return l1.run_property(PROP, tier, seed, proof, FAMILIES, MONS, SANS, nontrivial, RULE)
+    return l1.run_property(PROP, tier, seed, proof, FAMILIES, MONS, SANS, nontrivial, RULE + KT_RULE,
+                           extra_cases=lambda tier, seed: loopgen.ktimer_cases(seed))
 
 
 def search(tier, seed, proof):
